@@ -353,6 +353,7 @@ class Report:
                 "known_findings_hit": sorted(self.known_hit),
                 "correspondence_breaks": len(self.corr_breaks),
                 "exhaustive": exhaustive,
+                "source_tree": _source_tree(),
                 **self.extra,
             },
             "assumptions": self.notes,
@@ -361,6 +362,24 @@ class Report:
         }
         (EVIDENCE / f"{self.prop}.json").write_text(json.dumps(ev, indent=1, default=str))
         return rc
+
+
+def _source_tree() -> dict:
+    """which pandera the harness ran against (path of the imported package, tree and commit the translators read)"""
+    out = {"translators_read": str(REPO)}
+    try:
+        import pandera
+        out["pandera_imported_from"] = os.path.dirname(pandera.__file__)
+    except Exception as e:  # noqa: BLE001
+        out["pandera_imported_from"] = f"not imported in the harness process ({type(e).__name__})"
+    try:
+        out["commit"] = subprocess.run(["git", "-C", str(REPO), "rev-parse", "--short", "HEAD"], capture_output=True,
+                                       text=True).stdout.strip()
+        out["dirty"] = bool(subprocess.run(["git", "-C", str(REPO), "status", "--porcelain", "--", "pandera"],
+                                           capture_output=True, text=True).stdout.strip())
+    except Exception:  # noqa: BLE001
+        pass
+    return out
 
 
 def _classes(items: list[dict]) -> dict:
